@@ -238,6 +238,10 @@ func buildC05(tier string) *core.Plan {
 				return
 			}
 			os.MkdirAll(filepath.Join(dir, "o"), 0o755)
+			if cs.O != "" && i%2 == 0 {
+				// the output file already exists and is longer than what will be written
+				os.WriteFile(filepath.Join(dir, "o", "out."+cs.O), []byte(strings.Repeat("old: content that must not survive\n", 40)), 0o644)
+			}
 			var args []string
 			if cs.F != "" {
 				args = append(args, "-f", cs.F)
